@@ -257,7 +257,8 @@ class Sim:
         uid = len(self.users)
         pw = src.password if kind == 'clone' else self.pw_prefix + b'%d' % uid
         shared = kind in ('shared', 'clone')
-        settings = {'encryption': {'kdf': world.cheap_kdf(op.get('kdf', 0))}}
+        # kdf == -1: no KDF settings at all (what `add-key` does unless told otherwise: the default, expensive, KDF)
+        settings = {'encryption': {'kdf': world.cheap_kdf(op.get('kdf', 0))}} if op.get('kdf', 0) != -1 else None
 
         async def go():
             repo = self.new_repo()
